@@ -427,6 +427,9 @@ class Interp(AstMixin, Engine):
         if isinstance(f, type):
             return self.call_class(f, args, kwargs)
         if isinstance(f, types.MethodType):
+            if getattr(type(f.__self__), "pyvc_model", False):
+                # a method of a model object (symbolic string, stdlib model): run it natively, it talks to the engine itself
+                return self.call_native_raw(f, args, kwargs)
             if isinstance(f.__func__, types.FunctionType) and self.is_repo_func(f.__func__):
                 return self.call_function(f.__func__, [f.__self__] + args, kwargs)
             return self.call_native(f, args, kwargs)
@@ -457,6 +460,8 @@ class Interp(AstMixin, Engine):
     def all_concrete(self, vals: Any) -> bool:
         if isinstance(vals, (SInt, SBool, SOpaque, SObj, SList, SDict, Closure, BoundMethod, SStr, ExcValue, SuperProxy)):
             return False
+        if getattr(type(vals), "pyvc_symbolic", False):
+            return False
         if isinstance(vals, (list, tuple)):
             return all(self.all_concrete(v) for v in vals)
         if isinstance(vals, dict):
@@ -476,7 +481,13 @@ class Interp(AstMixin, Engine):
         m = self.models.get(f)
         if m is not None:
             return m(self, *args, **kwargs)
+        if getattr(f, "__name__", "") == "join" and isinstance(getattr(f, "__self__", None), str) and len(args) == 1 and isinstance(args[0], SList) and self.all_concrete(args[0].items):
+            args = [list(args[0].items)]
         if not (self.all_concrete(args) and self.all_concrete(kwargs)):
+            if getattr(f, "__name__", "") == "format" and isinstance(getattr(f, "__self__", None), str):
+                # message templates filled with symbolic values: the text of messages is never inspected
+                self.note_opaque_string()
+                return OPAQUE_STR
             raise Unsupported(f"native call {getattr(f, '__qualname__', f)!r} with symbolic arguments")
         try:
             return f(*args, **kwargs)
@@ -679,6 +690,10 @@ def _argkey(v: Any) -> Any:
     if isinstance(v, (SList, SDict, Closure, BoundMethod, ExcValue, SuperProxy)):
         return ("id", id(v))
     if isinstance(v, dict):
+        return ("id", id(v))
+    if hasattr(v, "chars") and getattr(type(v), "pyvc_symbolic", False):
+        return ("symstr", tuple(c if isinstance(c, str) else c.t.get_id() for c in v.chars))
+    if getattr(type(v), "pyvc_model", False):
         return ("id", id(v))
     try:
         hash(v)
